@@ -87,14 +87,14 @@ def run_variant(prop, v, root):
         shutil.rmtree(scratch, ignore_errors=True)
 
 
-def run_for(prop, root="/repo", jobs=16, verbose=True, only=None):
+def run_for(prop, root="/repo", jobs=16, verbose=True, only=None, want_info=False):
     variants = load(prop)
     if only:
         variants = [v for v in variants if v["id"] in only]
     if not variants:
         if verbose:
             print(f"selftest {prop}: no variants")
-        return 0
+        return (0, {"variants": 0}) if want_info else 0
     bad = 0
     skipped = 0
     with ThreadPoolExecutor(max_workers=max(1, jobs)) as ex:
@@ -111,7 +111,15 @@ def run_for(prop, root="/repo", jobs=16, verbose=True, only=None):
             print(f"selftest {prop} {v['id']} [{v['kind']}]: ok ({msg})")
     n = len(results)
     print(f"selftest {prop}: {n - bad - skipped}/{n} ok, {skipped} skipped, {bad} failed")
-    return 1 if bad else 0
+    info = {
+        "variants": n,
+        "breaking_detected": sum(1 for v, s_, m, o in results if v["kind"] == "break" and s_ == "ok"),
+        "benign_silent": sum(1 for v, s_, m, o in results if v["kind"] == "benign" and s_ == "ok"),
+        "skipped": [v["id"] for v, s_, m, o in results if s_ == "skipped"],
+        "failed": [v["id"] for v, s_, m, o in results if s_ == "FAIL"],
+        "ids": [f"{v['id']}[{v['kind']}{':' + v['rule'] if v.get('rule') else ''}]" for v, s_, m, o in results],
+    }
+    return ((1 if bad else 0), info) if want_info else (1 if bad else 0)
 
 
 if __name__ == "__main__":
